@@ -1141,6 +1141,7 @@ class Interp:
                   "greater_equal", "equal", "not_equal", "copyto"),
         "order": ("ravel", "flatten", "reshape", "unravel_index", "copy"),
         "initial": ("max", "min", "amax", "amin", "nanmax", "nanmin"),
+        "axes": ("transpose",),
         "axis": ("sum", "cumsum", "max", "min", "amax", "amin", "nanmax", "nanmin", "any", "all", "expand_dims", "moveaxis", "diff", "take", "flip", "gradient",
                  "concatenate", "stack", "squeeze", "argmax", "argmin", "mean", "prod", "count_nonzero", "diagonal", "swapaxes", "apply_along_axis", "cumprod", "tile", "repeat", "insert", "delete"),
     }
